@@ -12,8 +12,10 @@ instances (base, CLike, D) are regenerated from the live classes into
 Python quirks that are kept:
 * (`__iadd__` tests a once-only argument against `_container`, `pre`, `post` and, since the repair
   661f340, also against the `tmp_pre` deque of the running batch;)
-* `__len__` does not flush;
-* `__eq__` against another `CompilerArgs` flushes only `self`;
+* (`__len__` flushes since the repair of `len()` counting pending duplicates, and `__eq__` flushes the
+  other `CompilerArgs` too; the `MutableSequence` mixin methods `reverse`, `pop`, `remove`, `index`,
+  `count`, `__contains__`, `__reversed__`, `clear` are built by CPython from `__len__`/`__getitem__`/
+  `__setitem__`/`__delitem__`/`__iter__`, each of which flushes first;)
 * `to_native(copy=False)` of the C-like class inserts the group markers into `self`.
 -/
 namespace MesonModel.ArgList
@@ -288,6 +290,15 @@ inductive Op where
   | len
   | eqList (l : List Arg)
   | toNative (copy : Bool)
+  -- `collections.abc.MutableSequence` mixin methods
+  | reverse
+  | reversed                        -- `list(reversed(a))`
+  | pop (i : Int)
+  | remove (a : Arg)
+  | index (a : Arg)                 -- `a.index(v)` with the default bounds
+  | count (a : Arg)
+  | contains (a : Arg)
+  | clear
   deriving Repr
 
 inductive Out where
@@ -297,6 +308,7 @@ inductive Out where
   | bool (b : Bool)
   | arg (a : Arg)
   | indexError
+  | valueError
   deriving Repr, DecidableEq
 
 def step (cfg : Cfg) (s : State) (op : Op) : State × Out :=
@@ -327,12 +339,30 @@ def step (cfg : Cfg) (s : State) (op : Op) : State × Out :=
     | none => (s, .indexError)
   | .iter => let s := flush K s; (s, .list s.container)
   | .copy => let s := flush K s; (s, .list s.container)
-  | .len => (s, .nat (s.container.length + s.pre.length + s.post.length))
+  | .len =>
+    let s := flush K s
+    (s, .nat (s.container.length + s.pre.length + s.post.length))
   | .eqList l => let s := flush K s; (s, .bool (decide (s.container = l)))
   | .toNative copy =>
     let s := flush K s
     let r := nativeList cfg.native s.container
     (if copy then s else { s with container := r }, .list r)
+  | .reverse => let s := flush K s; ({ s with container := s.container.reverse }, .none)
+  | .reversed => let s := flush K s; (s, .list s.container.reverse)
+  | .pop i =>
+    let s := flush K s
+    match normIdx s.container.length i with
+    | some k => ({ s with container := s.container.eraseIdx k }, .arg (s.container.getD k []))
+    | none => (s, .indexError)
+  | .remove a =>
+    let s := flush K s
+    if a ∈ s.container then ({ s with container := s.container.erase a }, .none) else (s, .valueError)
+  | .index a =>
+    let s := flush K s
+    if a ∈ s.container then (s, .nat (s.container.idxOf a)) else (s, .valueError)
+  | .count a => let s := flush K s; (s, .nat (s.container.count a))
+  | .contains a => let s := flush K s; (s, .bool (decide (a ∈ s.container)))
+  | .clear => let s := flush K s; ({ s with container := [] }, .none)
 
 /-- outputs of running `ops` on the lazy object -/
 def runLazy (cfg : Cfg) (s : State) : List Op → List Out
@@ -411,7 +441,9 @@ def hstep (cfg : Cfg) (h : List State) (op : HOp) : List State × Out :=
       let si := flush K si
       let h := h.set i si
       match h[j]? with
-      | some sj => (h, .bool (decide (si.container = sj.container)))   -- `other` is not flushed
+      | some sj =>
+        let sj := flush K sj                                   -- `other.flush_pre_post()`
+        (h.set j sj, .bool (decide (si.container = sj.container)))
       | none => (h, .none)
     | none => (h, .none)
   | .new init => (h ++ [mk init], .none)
